@@ -40,7 +40,7 @@ func (Engine) Meta() simrt.Meta {
 		RealCode:    []string{"internal/ebnf/lexer", "internal/ebnf/parser (driver + embedded tables)", "moorara/algo lexer/input, list, parser/lr"},
 		Stubs:       []string{"token/production/evaluate callbacks (simulator-owned, failure injected at a chosen step)", "io.Reader (SimReader, full mode)"},
 		FaultKinds:  []string{"fault_tokenF_error", "fault_prodF_error", "fault_eval_error"},
-		CaseTimeout: 120 * time.Second,
+		CaseTimeout: 600 * time.Second,
 	}
 }
 
@@ -413,14 +413,18 @@ func (e Engine) Run(t *simrt.Tape, c simrt.Case, x *simrt.Ctx) *simrt.Result {
 
 	// ---- injected callback failures -------------------------------------------------------
 	steps := make([]int, 0, len(hist))
-	every := x.Tier == "thorough" || len(hist) <= 60
+	every := (x.Tier == "thorough" && len(hist) <= 600) || len(hist) <= 60
 	if every {
 		for k := range hist {
 			steps = append(steps, k)
 		}
 	} else {
 		seen := map[int]bool{}
-		for len(steps) < 30 {
+		want := 30
+		if x.Tier == "thorough" {
+			want = 200
+		}
+		for len(steps) < want {
 			k := t.Draw(len(hist))
 			if !seen[k] {
 				seen[k] = true
@@ -503,7 +507,7 @@ func (e Engine) Run(t *simrt.Tape, c simrt.Case, x *simrt.Ctx) *simrt.Result {
 			esteps = append(esteps, k)
 		}
 	} else {
-		for i := 0; i < 20; i++ {
+		for i := 0; i < 20 || (x.Tier == "thorough" && i < 120); i++ {
 			esteps = append(esteps, t.Draw(nEval))
 		}
 	}
